@@ -71,9 +71,9 @@ TEXT = {
                 'correspondence', ref='DESIGN.md 5 C12'),
     'C13': dict(level='Lean checker on every Louvain output: non-empty list of levels, each a partition into non-empty communities, each level '
                 'coarsens the previous, exact (rational) modularity on the input graph non-decreasing and first level >= singletons, '
-                'louvain_communities = last level; termination observed under a watchdog; theorems on the gain formula (gain = m*deltaQ).',
-                note='Partial: Louvain itself is not modelled step by step (randomised visiting order inside the crate); the algebraic core is a '
-                     'theorem, the rest is the proved checker on explored inputs. f64 rounding inside Louvain is not modelled.',
+                'louvain_communities = last level; termination observed under a watchdog; theorems on the gain formula (gain = m*deltaQ); a step-level exact model of the implementation compared level by level.',
+                note='Partial: termination and monotonicity are observed through the checker, not proved of the model; the model comparison is skipped when two '
+                     'candidate gains are within 1e-9 (f64 rounding decides). The shuffle permutations are inputs computed by the harness with the same rand call.',
                 technique='Lean 4 proof (gain identity, checker) + spec check on implementation output', ref='DESIGN.md 5 C13'),
     'C14': dict(level='Event-level model of the GraphML writer and reader; theorem: readEvents (writeEvents g) rebuilds g; the real document is '
                 'tokenised with the same quick-xml and compared with the model writer, the real read-back graph with the original '
